@@ -30,7 +30,7 @@ EXPLANATION = (
     "a frozen list. (R4) for every `delete` of a local pointer in the runtime libraries: on no path that is consistent in "
     "its flag variables does the function first pass the pointer to a parameter that is stored (least fixed point of "
     "'assigned to a member/element/global or passed on to a stored parameter', virtual calls expanded) and then delete it "
-    "without taking it back or re-assigning it. Not decided: heap lifetime beyond R4, integer overflow, recursion depth, time proportional to input, "
+    "without taking it back or re-assigning it. (E2t) every strncpy into a fixed char array with a constant size is followed, on every path to the next use of the array, by a store of 0 at an index not above that size - or cannot need one (literal source shorter than the size; zero-initialised storage whose tail is never written; a constructor-established terminator beyond the size; identifier sources under the identifier-length assumption). Not decided: heap lifetime beyond R4, integer overflow, recursion depth, time proportional to input, "
     "judy.c / sc_hash.cc internals (vendored containers with structural invariants).")
 
 ENTRIES = ["STEPfile::ReadExchangeFile", "STEPfile::AppendExchangeFile", "STEPfile::ReadWorkingFile",
